@@ -158,6 +158,10 @@ type run struct {
 	kept    [][]byte     // app kind: every delivered packet, retained uncopied
 	isSock  bool
 	udp     bool
+	udpc    *net.UDPConn // udp (receive leg only): the harness's plain peer socket
+	bp      *backPressure // tcpb: sender behind a peer that does not read for a while
+	rcvSend func([]byte) // udp: sendFrame of the RECEIVING transport
+	pa, pb  uint16       // udp: peer port, transport port
 	closeR  func() // udp: Close of the receiving transport (UDP has no end of stream)
 	mu      sync.Mutex
 	nframes int
@@ -301,6 +305,82 @@ func (r *run) concurrentSend(na, nb int) string {
 	return fmt.Sprintf("k=%d f=%s", len(a)+len(b), frameBytes(wc.written))
 }
 
+// backPressure: the blocks are handed to the sendFrame of a real TCP transport by one goroutine, one
+// after the other like the link service's send loop, while the peer does not read at all for
+// <stall>: the socket's send queue fills and Write blocks.  The peer then reads everything.
+type backPressure struct {
+	q     chan []byte
+	done  chan struct{}
+	srv   net.Conn
+	stall time.Duration
+}
+
+func startBackPressure(smtu, stallMs int) *run {
+	r := &run{kind: "tcpb", done: make(chan string, 1), offered: -1, isSock: true}
+	ln, err := net.Listen("tcp4", "127.0.0.1:0")
+	if err != nil {
+		return nil
+	}
+	defer ln.Close()
+	cl, err := net.Dial("tcp4", ln.Addr().String())
+	if err != nil {
+		return nil
+	}
+	srv, err := ln.Accept()
+	if err != nil {
+		cl.Close()
+		return nil
+	}
+	// small socket buffers: a few blocks fill the queue
+	cl.(*net.TCPConn).SetWriteBuffer(8192)
+	srv.(*net.TCPConn).SetReadBuffer(8192)
+	_, snd, cls, err := fwface.VerifStreamTransport("tcp", cl, smtu, func([]byte) {})
+	if err != nil {
+		cl.Close()
+		srv.Close()
+		return nil
+	}
+	r.send, r.closeS = snd, cls
+	bp := &backPressure{q: make(chan []byte, 1<<16), done: make(chan struct{}), srv: srv, stall: time.Duration(stallMs) * time.Millisecond}
+	go func() {
+		defer close(bp.done)
+		for b := range bp.q {
+			snd(b)
+		}
+	}()
+	r.bp = bp
+	return r
+}
+
+func (r *run) finishBackPressure() string {
+	bp := r.bp
+	close(bp.q)
+	time.Sleep(bp.stall)
+	got := make(chan []byte, 1)
+	go func() {
+		bp.srv.SetReadDeadline(time.Now().Add(2 * watchdog))
+		b, _ := io.ReadAll(bp.srv)
+		got <- b
+	}()
+	select {
+	case <-bp.done:
+	case <-time.After(watchdog):
+		r.hung = true
+		bp.srv.Close()
+		return "hang k=0 f=-"
+	}
+	r.closeS()
+	select {
+	case b := <-got:
+		bp.srv.Close()
+		return "nil f=" + frameBytes(b)
+	case <-time.After(watchdog):
+		r.hung = true
+		bp.srv.Close()
+		return "hang k=0 f=-"
+	}
+}
+
 func freeUDPPort() uint16 {
 	c, err := net.ListenUDP("udp4", &net.UDPAddr{IP: net.IPv4(127, 0, 0, 1)})
 	if err != nil {
@@ -330,11 +410,12 @@ func startSock(kind string, smtu, rmtu int) *run {
 		if pa == 0 || pb == 0 || pa == pb {
 			return nil
 		}
-		rcv, _, closeR, err := fwface.VerifUDPTransport(pb, pa, rmtu, onFrame)
+		rcv, rsnd, closeR, err := fwface.VerifUDPTransport(pb, pa, rmtu, onFrame)
 		if err != nil {
 			return nil
 		}
 		recv, r.closeR, r.udp = rcv, closeR, true
+		r.rcvSend, r.pa, r.pb = rsnd, pa, pb
 		if sendLeg {
 			_, snd, cls, err := fwface.VerifUDPTransport(pa, pb, smtu, func([]byte) {})
 			if err != nil {
@@ -349,7 +430,8 @@ func startSock(kind string, smtu, rmtu int) *run {
 				closeR()
 				return nil
 			}
-			r.send, r.closeS = func(b []byte) { c.Write(b) }, func() { c.Close() }
+			r.udpc = c
+			r.send, r.closeS = func(b []byte) { r.udpc.Write(b) }, func() { r.udpc.Close() }
 		}
 	} else {
 		var ln net.Listener
@@ -430,6 +512,10 @@ func (r *run) sockFinish() string {
 		return "dead " + r.result
 	}
 	r.closed = true
+	if r.bp != nil {
+		r.result = r.finishBackPressure()
+		return r.result
+	}
 	if r.udp {
 		// no end of stream on UDP: wait until the receive loop is quiet, then close the receiving transport
 		for n, quiet := r.frameCount(), 0; quiet < 4; {
@@ -565,6 +651,11 @@ func exec(op string) string {
 			cur = startSock(f[1], 1<<30, common.Atoi(f[2]))
 		} else if f[1] == "appsend" {
 			cur = startAppSend()
+		} else if f[1] == "tcpb" {
+			if len(f) != 4 {
+				return "bad-op"
+			}
+			cur = startBackPressure(common.Atoi(f[2]), common.Atoi(f[3]))
 		} else if f[1] == "tcps" || f[1] == "unixs" || f[1] == "udps" {
 			if len(f) != 4 {
 				return "bad-op"
@@ -605,6 +696,10 @@ func exec(op string) string {
 		}
 		b := cur.blocks[0]
 		cur.blocks = cur.blocks[1:]
+		if cur.bp != nil { // sent by the send-loop goroutine; it may block on the full socket
+			cur.bp.q <- b
+			return fmt.Sprintf("k=%d w", len(b))
+		}
 		if cur.sock != nil {
 			cur.sock.SetWriteDeadline(time.Now().Add(watchdog))
 		}
@@ -614,6 +709,59 @@ func exec(op string) string {
 			for i := 0; i < 30 && cur.frameCount() == before; i++ {
 				time.Sleep(time.Millisecond)
 			}
+		}
+		return fmt.Sprintf("k=%d w", len(b))
+	case "sfr":
+		// plain-socket UDP leg: the next block travels as TWO datagrams (the first <k> bytes, then the
+		// rest).  In between the peer's port is closed and the receiving transport sends a frame of
+		// its own: the kernel answers with ICMP port unreachable and the transport's pending Read
+		// returns "connection refused" - the error the transport ignores (UDP is connectionless).
+		// The peer then comes back on the same port.  The half block already received must survive.
+		if len(f) != 2 {
+			return "bad-op"
+		}
+		if cur == nil || cur.udpc == nil || cur.rcvSend == nil {
+			return "skip"
+		}
+		if cur.closed {
+			return "dead " + cur.result
+		}
+		if len(cur.blocks) == 0 {
+			return "skip"
+		}
+		b := cur.blocks[0]
+		cur.blocks = cur.blocks[1:]
+		k := common.Atoi(f[1])
+		if k >= len(b) {
+			k = len(b) - 1
+		}
+		if k < 1 {
+			k = 1
+		}
+		before := cur.frameCount()
+		cur.udpc.Write(b[:k])
+		time.Sleep(3 * time.Millisecond) // the transport reads the first half
+		cur.udpc.Close()
+		cur.rcvSend([]byte{0x64, 0x00}) // an (empty) LpPacket towards the closed port
+		time.Sleep(3 * time.Millisecond) // ICMP comes back, Read returns the error
+		var c *net.UDPConn
+		var err error
+		for i := 0; i < 50; i++ {
+			c, err = net.DialUDP("udp4", &net.UDPAddr{IP: net.IPv4(127, 0, 0, 1), Port: int(cur.pa)},
+				&net.UDPAddr{IP: net.IPv4(127, 0, 0, 1), Port: int(cur.pb)})
+			if err == nil {
+				break
+			}
+			time.Sleep(2 * time.Millisecond)
+		}
+		if err != nil {
+			cur.closed = true
+			return "hang k=0 f=- redial: " + err.Error()
+		}
+		cur.udpc = c
+		c.Write(b[k:])
+		for i := 0; i < 30 && cur.frameCount() == before; i++ {
+			time.Sleep(time.Millisecond)
 		}
 		return fmt.Sprintf("k=%d w", len(b))
 	case "rd", "rde":
@@ -762,6 +910,15 @@ func gen(g *common.Gen) {
 		kind := "fw"
 		if i%4 == 3 {
 			kind = "app"
+		}
+		if i%8 == 2 && (i/8)%16 == 5 {
+			// a TCP peer that stops reading for a while (> 2 s once per batch) and then resumes
+			stall := r.Range(10, 150)
+			if i == 42 {
+				stall = 2500
+			}
+			genBackPressure(g, r, stall)
+			continue
 		}
 		if i%8 == 6 {
 			switch (i / 8) % 7 {
@@ -999,6 +1156,37 @@ func genSendLeg(g *common.Gen, r *common.Rand, kind string) {
 			g.Stat("sf")
 			j++
 		}
+		if kind == "udp" && r.Chance(1, 4) {
+			// two datagrams with an ICMP "connection refused" on the receiving socket in between
+			g.Op("sfr %d", common.Pick(r, []int{1, 2, 3, 4, r.Range(1, size), size - 1}))
+			g.Stat("sfr")
+			continue
+		}
+		g.Op("sf")
+		g.Stat("sf")
+	}
+	g.Op("eof")
+}
+
+// genBackPressure: many mostly large blocks through a real TCP transport whose peer does not read
+// for <stall> ms (the queue fills after a few blocks, the rest waits in Write) and then reads all.
+func genBackPressure(g *common.Gen, r *common.Rand, stall int) {
+	g.Op("new tcpb %d %d", maxPkt, stall)
+	g.Stat("hist-tcpb")
+	g.Stat("style-send-leg")
+	if stall >= 2000 {
+		g.Stat("tcpb-stall-over-2s")
+	}
+	n := r.Range(30, 60)
+	for j := 0; j < n; j++ {
+		size := r.Range(3000, maxPkt)
+		if r.Chance(1, 5) {
+			size = r.Range(2, 300)
+		}
+		for !sizeOk(size) {
+			size--
+		}
+		sizedBlock(g, r, size)
 		g.Op("sf")
 		g.Stat("sf")
 	}
